@@ -16,6 +16,7 @@ import (
 	"os"
 	"runtime"
 	"strings"
+	"sync/atomic"
 	"time"
 
 	proto "github.com/kubewharf/kubebrain-client/api/v2rpc"
@@ -177,8 +178,23 @@ func runCase(pa string, l int, c0 uint64, s *script) string {
 const realParams = "real_params"
 
 
+// slowFails counts waits that ran into their (generous) bound. After two of them the bounds shrink: the
+// pipeline is then broken rather than slow, and the run must still end in time to report it.
+var slowFails int32
+
 // waitUntil polls cond: spinning (with Gosched) for the first 300µs, then sleeping 100µs between polls.
 func waitUntil(d time.Duration, cond func() bool) bool {
+	if atomic.LoadInt32(&slowFails) >= 2 && d > 300*time.Millisecond {
+		d = 300 * time.Millisecond
+	}
+	ok := waitUntil0(d, cond)
+	if !ok {
+		atomic.AddInt32(&slowFails, 1)
+	}
+	return ok
+}
+
+func waitUntil0(d time.Duration, cond func() bool) bool {
 	start := time.Now()
 	for i := 0; ; i++ {
 		if cond() {
@@ -232,7 +248,7 @@ func main() {
 	hubCases(light, rnd.Fork(), args.Tier)
 	nb := 10
 	if args.Tier == "thorough" {
-		nb = 60
+		nb = 40
 	} else if args.Tier == "search" {
 		nb = 30
 	}
